@@ -54,6 +54,10 @@ def run(ctx):
     from . import c06
     for name in ("check_arity", "check_positions", "check_is_valid"):
         ctx.attempt(name, getattr(c06, name), ctx, lib)
+    # a runtime error is located in the text the Expression carries, with offsets counted by the parser in the text it was given:
+    # the two are the same string only if compile / Expression::new / Clone keep the text untouched (shared with C13)
+    from ..effects import check_same_triple
+    ctx.attempt("check_same_triple", check_same_triple, ctx, lib, "located-in-parsed-text")
 
 
 # =============================================================================================
